@@ -56,6 +56,32 @@ Theorem C08_eval : forall c ops, canonical (c, ops) = true -> eval_stmts c (rend
 Proof. exact RenderProof.eval_render. Qed.
 Print Assumptions C08_eval.
 
+(* ... in the namespace of the generated file: the rendered body, evaluated where ONLY the two configured module names and
+   the modules of the collected import lines are bound (eval_in), denotes the operations -- the text has no free names *)
+Theorem C08_eval_closed : forall c ops, canonical (c, ops) = true ->
+  eval_in c (render_imports ops) (render_ops c ops) = Some (expected c ops).
+Proof. exact RenderProof.eval_in_render. Qed.
+Print Assumptions C08_eval_closed.
+(* and an import that is used but was not collected is noticed: whatever else the output says, the decider rejects a text
+   that uses a type of a dialect module for which the output has no import line *)
+Theorem C08_missing_import_rejected : forall c tn x d p a o st ops',
+  c_type x = mkTy (TyDialect d) p a -> memb d (o_imports o) = false ->
+  o_parsed o = Some st -> eval_stmts c st = Some (TOp tn None (OAddColumn x) :: ops') ->
+  check_C08 (c, [TOp tn None (OAddColumn x)]) o = false.
+Proof.
+  intros c tn x d p a o st ops' T M P E. unfold check_C08, reads_back. rewrite P. cbn [fst snd existsb is_opaque orb].
+  unfold eval_in. rewrite E. unfold dialects_of. cbn [flat_map top_dialects tbl_op_dialects]. rewrite T. cbn [ty_dialect ty_mod app forallb].
+  rewrite M. cbn [andb]. rewrite !andb_false_r. reflexivity.
+Qed.
+Print Assumptions C08_missing_import_rejected.
+(* the referred column of an inline foreign key keeps EVERY token of the referred table's name: a table in a dotted schema
+   (otherdb.dbo) is rendered with both parts, and the referred column by its database name when the table was found *)
+Theorem C08_fk_dotted_schema : forall a b t k n,
+  ref_text (mkRef [a; b; t; k] None) = a ++ 46%N :: b ++ 46%N :: t ++ 46%N :: k /\
+  ref_text (mkRef [a; b; t; k] (Some n)) = a ++ 46%N :: b ++ 46%N :: t ++ 46%N :: n.
+Proof. intros. split; reflexivity. Qed.
+Print Assumptions C08_fk_dotted_schema.
+
 Theorem C08_decider_sound : forall i o, check_C08 i o = true -> C08_holds i o.
 Proof. exact RenderProof.decider_sound. Qed.
 Print Assumptions C08_decider_sound.
@@ -72,7 +98,7 @@ Print Assumptions C08_main.
    operation object had a conv() name does not pass the decider: the convention would be applied a second time *)
 Theorem C08_plain_for_conv_rejected : forall tn s st,
   check_C08 (mkCfg (lit "op") (lit "sa") false true, [TOp tn None (ODropConstraint (Conv s) None)])
-            (mkOut (Some st) (Some [TOp tn None (ODropConstraint (Plain (mkId s None)) None)]) true) = false.
+            (mkOut (Some st) (Some [TOp tn None (ODropConstraint (Plain (mkId s None)) None)]) true []) = false.
 Proof. intros. unfold check_C08, exec_names_ok, names_agree. cbn [o_parsed o_sql_same o_exec fst snd andb]. reflexivity. Qed.
 Print Assumptions C08_plain_for_conv_rejected.
 
@@ -141,7 +167,7 @@ Print Assumptions C08_fetched_value_roundtrip.
    name (translated by _fk_colspec) and emits REFERENCES t2 (<name>) *)
 Definition w_fkkey : c08_in :=
   (cfg0, [TCreateTable (mkTable (id0 "t") None [col0 None]
-            [CFk [id0 "c"] [mkRef (lit "t2.c_remkey") (Some (lit "t2.c_rem"))] NoName None None None None false None] None [] None)]).
+            [CFk [id0 "c"] [mkRef [lit "t2"; lit "c_remkey"] (Some (lit "c_rem"))] NoName None None None None false None] None [] None)]).
 Theorem C08_eval_refuted_fk_referred_key : ~ C08_holds w_fkkey (model_C08 w_fkkey).
 Proof. intros [_ [H _]]. vm_compute in H. discriminate. Qed.
 Print Assumptions C08_eval_refuted_fk_referred_key.
@@ -151,7 +177,8 @@ Definition ex_table : table :=
   mkTable (id0 "it's") (Some (id0 "My Schema"))
     [mkCol (id0 "na\""me") (mkTy TySa [lit "String"] [PKw (lit "length") (PInt false (lit "30"))]) (Some (SdStr (lit "d'f"))) None false false (Some (lit "c'm")) (Some (lit "uname"));
      mkCol (id0 "n") (mkTy (TyDialect (lit "mysql")) [lit "TINYINT"] []) (Some (SdComputed (lit "a + 1") (Some true))) (Some false) true false None None]
-    [CPk [id0 "n"] (Conv (lit "pk_t")); CUq [id0 "n"] (Plain (id0 "uq'1")) (Some true) None; CCk (lit "n > 0") NoName]
+    [CPk [id0 "n"] (Conv (lit "pk_t")); CUq [id0 "n"] (Plain (id0 "uq'1")) (Some true) None; CCk (lit "n > 0") NoName;
+     CFk [id0 "n"] [mkRef [lit "otherdb"; lit "dbo"; lit "parent"; lit "id"] None] NoName None (Some (lit "CASCADE")) None None false None]
     (Some (lit "tbl 'c'")) [lit "TEMPORARY"] (Some true).
 Definition ex_input : c08_in :=
   (mkCfg (lit "op") (lit "sa") true true,
